@@ -24,6 +24,35 @@ def graph_runs(stmts: list) -> int:
     return runs
 
 
+def extra_jobs() -> list[dict]:
+    """Streams whose compression depends on sites other than s/p/o of a plain statement."""
+    from ..values import Atom, sstr
+
+    def iri(tag: str, local: str) -> tuple:
+        return ("iri", sstr(Atom(tag + ".scheme", nosep=True), "/", Atom(tag + ".path", nosep=True), "#", Atom(local + ".local", nosep=True)))
+
+    out = []
+    # an IRI used as graph name and as subject/object (graph metadata in the dataset), with and without a prefix table
+    g1, g2 = iri("G", "g1"), iri("G", "g2")
+    meta = [(g1, iri("V", "p"), g2, g1), (g2, iri("V", "p"), g1, g2), (iri("X", "s"), iri("V", "q"), g2, g1)]
+    for integ in ("generic", "rdflib"):
+        for physical in (2, 3):
+            for preset in ((16, 0, 8), (16, 8, 8)):
+                out.append(dict(integ=integ, physical=physical, name="graph names reused as terms", stmts=meta, via="generator", parsers=[], generalized=False, rdf_star=False, delimited=True, frame_size=250, logical=None, preset=preset))
+    # namespace declarations share the delta chains: the same namespace under two labels, a namespace equal to the
+    # first statement's, a declaration whose name entry follows the last used one
+    ns_a = sstr(Atom("a.s.scheme", nosep=True), "/", Atom("a.s.path", nosep=True), "#")
+    ns_b = sstr(Atom("nsB.scheme", nosep=True), "/", Atom("nsB.path", nosep=True), "/")
+    bindings = [("one", ns_b), ("two", ns_b), ("", sstr(ns_b, Atom("nsB.more", nosep=True))), ("subj", ns_a)]
+    for integ in ("generic", "rdflib"):
+        for physical in (1, 2):
+            arity = 3 if physical == 1 else 4
+            stmts = [tuple(C.base("a", arity)), tuple(C.base("b", arity))]
+            for preset in ((16, 8, 8), (16, 0, 8)):
+                out.append(dict(integ=integ, physical=physical, name="namespace declarations", stmts=stmts, via="store", parsers=[], generalized=False, rdf_star=False, delimited=True, frame_size=250, logical=None, preset=preset, namespaces=bindings, namespaces_enabled=True))
+    return out
+
+
 def check(chk: Check) -> None:
     r1, r2, r3, r4 = "C19.AUDIT.no-redundant-entry", "C19.AUDIT.repeat-elided", "C19.AUDIT.zero-forms", "C19.AUDIT.graph-grouping"
     chk.rule(r1, "no lookup entry row is written for a string currently resident in that table", floor=800)
@@ -37,6 +66,7 @@ def check(chk: Check) -> None:
         j = dict(j)
         j["parsers"] = []
         jobs.append(j)
+    jobs += extra_jobs()
     jobs = fit_presets(jobs)
     for res in pmap(pipejob.run, jobs):
         if res is None:
